@@ -192,10 +192,11 @@ Definition C05_witness : tree :=
       ([100], TFile (mkAttrs 33188 0 0 0 []) []);
       ([101], TDev (mkAttrs 8612 0 0 3 []) 1283) ].
 
-Definition C05_run (o : lopts) : option fnode :=
-  match tar_of_tree C05_witness with
+(* Tar, decode, UnTar into an empty directory as root with umask 022 *)
+Definition run_model (pr : proc) (o : lopts) (t : tree) : option fnode :=
+  match tar_of_tree t with
   | Some b => match decode_archive b with
-              | Ok (ns, []) => match untar (mkProc 0 0 18) o ns (empty_root (mkProc 0 0 18)) with
+              | Ok (ns, []) => match untar pr o ns (empty_root pr) with
                                | FOk r => Some r
                                | FErr _ => None
                                end
@@ -204,8 +205,17 @@ Definition C05_run (o : lopts) : option fnode :=
   | None => None
   end.
 
+Definition C05_pr : proc := mkProc 0 0 18.
+Definition C05_run (o : lopts) : option fnode := run_model C05_pr o C05_witness.
+
+Definition look (p : list bytes) (r : option fnode) : option fnode :=
+  match r with Some n => lookup p n | None => None end.
 Definition mtime_at (p : list bytes) (r : option fnode) : option time :=
-  match r with Some n => option_map (fun e => fm_mtime (fmeta_of e)) (lookup p n) | None => None end.
+  option_map (fun e : fnode => fm_mtime (fmeta_of e)) (look p r).
+Definition owner_mode_at (p : list bytes) (r : option fnode) : option (N * N * N) :=
+  option_map (fun e : fnode => (fm_perm (fmeta_of e), fm_uid (fmeta_of e), fm_gid (fmeta_of e))) (look p r).
+Definition xattrs_at (p : list bytes) (r : option fnode) : option (list (bytes * bytes)) :=
+  option_map (fun e : fnode => fm_xattrs (fmeta_of e)) (look p r).
 
 (* dir_mtime_refuted: the root had mtime 1000 and has children *)
 Example C05_dir_mtime_refuted : mtime_at [] (C05_run default_opts) = Some Now.
@@ -222,19 +232,15 @@ Example C05_mtime_kept : mtime_at [[97]] (C05_run default_opts) = Some (Stamp 5)
                          mtime_at [[101]] (C05_run default_opts) = Some (Stamp 3).
 Proof. vm_compute. repeat split; reflexivity. Qed.
 (* the set-uid file keeps mode 04755 and its owner although chown clears the bit in between *)
-Example C05_setuid_kept :
-  option_map (fun e => (fm_perm (fmeta_of e), fm_uid (fmeta_of e), fm_gid (fmeta_of e)))
-             (match C05_run default_opts with Some n => lookup [[97]] n | None => None end)
-  = Some (2541, 1000, 4000000000).
+Example C05_setuid_kept : owner_mode_at [[97]] (C05_run default_opts) = Some (2541, 1000, 4000000000).
 Proof. vm_compute. reflexivity. Qed.
 (* the whole run equals expect *)
-Example C05_run_is_expect : C05_run default_opts = expect (mkProc 0 0 18) default_opts C05_witness /\
-                            C05_run (mkLopts true true) = expect (mkProc 0 0 18) (mkLopts true true) C05_witness.
+Example C05_run_is_expect : C05_run default_opts = expect C05_pr default_opts C05_witness /\
+                            C05_run (mkLopts true true) = expect C05_pr (mkLopts true true) C05_witness.
 Proof. vm_compute. split; reflexivity. Qed.
 (* the xattrs of the root come back sorted by key, value with its NUL byte intact *)
 Example C05_xattrs_sorted :
-  option_map (fun e => fm_xattrs (fmeta_of e)) (match C05_run default_opts with Some n => lookup [] n | None => None end)
-  = Some [([117; 46; 97], [2; 0; 3]); ([117; 46; 98], [1])].
+  xattrs_at [] (C05_run default_opts) = Some [([117; 46; 97], [2; 0; 3]); ([117; 46; 98], [1])].
 Proof. vm_compute. reflexivity. Qed.
 
 (* the hypotheses of the theorems are satisfiable: the witness is a well-formed tree *)
